@@ -379,7 +379,15 @@ Definition poll_next_body (F : rtfuns) (cid : nat) (w : waker) (H : heap) : opti
   | [] =>
     match c_eff cm with
     | e :: rest => Some (PNEffect e, ucmd cid (set_eff rest) H1)
-    | [] => if Nat.eqb (c_len cm) 0 then Some (PNDone, H1) else Some (PNPending, H1)
+    | [] =>
+      (* `if self.is_done()`: is_done settles AGAIN before looking (this is where an abort raised
+         during the first settle is noticed) and then wants no output and no task *)
+      match rsettle F cid H1 with None => None | Some H2 =>
+      let cm2 := gcmd cid H2 in
+      match c_eff cm2, c_evs cm2 with
+      | [], [] => if Nat.eqb (c_len cm2) 0 then Some (PNDone, H2) else Some (PNPending, H2)
+      | _, _ => Some (PNPending, H2)
+      end end
     end
   end end.
 Definition settle_body (F : rtfuns) (cid : nat) (H : heap) : option heap :=
